@@ -71,6 +71,11 @@ CHECKS['C05'] = dict(
    text='Generated-input search with reference models. The 32 bytes pushed by make_taproot_lock, make_nonnative_taproot_lock and make_graftap_lock must equal P + clamp(sha256(P || sha256(S)))*G computed with the pure-Python reference. Key path: the builder key-spend witness is a valid RFC 8032 signature under the root and authorises exactly when its flag is permitted; signatures by the untweaked key, another key, over other fields, bit-flipped, or against a bit-flipped root never do. Script path: the committed script (which starts by invoking a recording contract) starts exactly when (script, key) recomputes to the root; other script, other key, foreign pair, non-point, empty script, bit-flipped script and every tiny would-authorise script of length 1..48 give False with an empty recorder. Graftap key and script spends unlock; a surrogate signed by a foreign key does not. Native and non-native locks must agree on every case and on adversarial witnesses of the C01 family.',
    note='Negative script-path witnesses are pure pushes. Native vs non-native is compared at default stack limits for witnesses leaving a call budget >= 28 and a stack below 900 items.',
    design='3/C05')
+CHECKS['C13'] = dict(
+   technique='Hypothesis lock x witness pairs (matched, single-respect perturbations, cross pairings); reference acceptance predicate per lock kind over the typed stack the witness leaves, on top of the RFC 8032 reference; recording contract',
+   text='Generated-input search with specification predicates. Locks: single-sig (both layouts), m-of-n multisig, script-hash (hash sizes 1..64), graftroot, graftap; witnesses: every sibling witness builder. About half of the pairs match (the builder witness must unlock: stated by the property itself), the others differ in one respect (other key, covered field changed, excluded field changed, non-permitted flag, other committed / surrogate script, surrogate signed by a foreign key - also with the rightful committed script and internal key for graftap) or pair different builders. The witness is a pure-push script, so it is reduced to the stack it leaves and a reference predicate per lock kind decides the expected verdict (cross pairings are evaluated, never assumed); a recording contract shows that a rejected witness ran no committed or surrogate script. Changes to excluded fields must not change the verdict.',
+   note='Own verdicts of committed / surrogate scripts reuse the implementation of single-script execution. Truncated script hashes are evaluated by the predicate itself (collisions at 1 byte are legitimate matches).',
+   design='3/C13')
 NOT_YET = {}
 for i in range(1, 21):
     pid = 'C%02d' % i
